@@ -7,7 +7,7 @@ import json
 import os
 
 from .extract import AnalysisBroken
-from .facts import CALLS, CTORS, fmt_term
+from .facts import CALLS, CTORS, WRAPPERS, CASTS, fmt_term
 from .report import ok, bad, VERIF
 
 RD = "OP2Utility::Stream::Reader::"
@@ -73,6 +73,9 @@ class Tracer:
                 return "%s%s(%s)" % ((o + ".") if o else "", nm, args)
             return "%s(%s)" % (nm, args)
         if h == "op":
+            if t[1] == "!=" and ("const", 0) in (t[2], t[3]):
+                # `flag != 0` is what `flag` means where a truth value is wanted
+                return self.npath(fn, t[3] if t[2] == ("const", 0) else t[2], env, vt)
             return "(%s %s %s)" % (self.npath(fn, t[2], env, vt), t[1], self.npath(fn, t[3], env, vt))
         if h == "global":
             return (t[1] or "?").split("::")[-1]
@@ -287,6 +290,37 @@ class Tracer:
         if obj is not None and cal.cls and not cal.d.get("static"):
             # calling a member serialiser on some object: its `this` is that object
             env2["__this__"] = self.npath(fn, obj, env, vt)
+        # a helper that builds and returns one local (`std::vector<T> v; ...read...; return v;`) whose result is stored
+        # somewhere (`map.items = ReadItems(stream)`): inside the helper, that local stands for the destination
+        rets = [x for x in cal.nodes if x["k"] == "ReturnStmt" and "value" in x]
+        rv = {cal.term(x["value"]) for x in rets}
+        if len(rv) == 1:
+            r0 = list(rv)[0]
+            if r0[0] == "var" and not any(r0 == ("var", p["n"], p["d"]) for p in cal.params):
+                pm = fn.parent_map()
+                cur = c["id"]
+                dest = None
+                for _ in range(8):
+                    par = pm.get(cur)
+                    if par is None:
+                        break
+                    pn = fn.n(par)
+                    if pn["k"] in ("CXXOperatorCallExpr", "BinaryOperator") and pn.get("op") == "=":
+                        a2 = pn.get("args") or fn.kids(par)
+                        if len(a2) == 2 and cur in fn.subtree(a2[1]):
+                            dest = fn.term(a2[0])
+                        break
+                    if pn["k"] == "DeclStmt":
+                        for d2 in pn.get("decls", []):
+                            if "init" in d2 and cur in fn.subtree(d2["init"]):
+                                dest = ("var", d2["n"], d2["d"])
+                        break
+                    if pn["k"] in WRAPPERS or pn["k"] in CASTS or (pn["k"] in CTORS and pn.get("copy_or_move")):
+                        cur = par
+                        continue
+                    break
+                if dest is not None and dest[0] != "?":
+                    env2[r0] = self.npath(fn, dest, env, vt)
         if passes:
             p = cal.params[passes[0]]
             cstream = ("var", p["n"], p["d"])
